@@ -134,10 +134,9 @@ func Apply(dip *inode.Inode, op *fstxn.FsTxn, start uint64,
 	f func(*inode.Inode, string, common.Inum, uint64)) bool {
 	var eof bool = true
 	var ip *inode.Inode
+	// start is the offset at which to resume (the cookie handed out with
+	// the previous entry); 0 starts at the beginning
 	var begin = uint64(start)
-	if begin != 0 {
-		begin += DIRENTSZ
-	}
 	// TODO: arbitrary estimate of constant XDR overhead
 	var n uint64 = uint64(64)
 	var dirbytes uint64 = uint64(0)
@@ -183,10 +182,9 @@ func Apply(dip *inode.Inode, op *fstxn.FsTxn, start uint64,
 func ApplyEnts(dip *inode.Inode, op *fstxn.FsTxn, start uint64, count uint64,
 	f func(string, common.Inum, uint64)) bool {
 	var eof bool = true
+	// start is the offset at which to resume (the cookie handed out with
+	// the previous entry); 0 starts at the beginning
 	var begin = uint64(start)
-	if begin != 0 {
-		begin += DIRENTSZ
-	}
 	// TODO: this is supposed to track the size of the XDR-encoded reply in
 	// bytes, and we somewhat arbitrarily use 64 as the constant overhead
 	var n uint64 = uint64(64)
